@@ -3,7 +3,10 @@ Model of /repo/lib/interval/interval.go (C06), written function by function.
 Core Lean only.  `none` as a bound = infinite (nil *big.Int); `lo > hi` = empty
 (several empty representations exist, exactly as in the Go code, and the model
 tracks which one is returned).
+`Gen/C06_Tables.lean` (regenerated on every check from the working tree) supplies the
+`smallBitMasks` table that `bitMask` looks up.
 -/
+import WuffsVerif.Gen.C06_Tables
 namespace WuffsVerif.Interval
 
 structure IR where
@@ -73,6 +76,47 @@ def IR.containsZero (x : IR) : Bool :=
 def IR.containsInt (x : IR) (i : Int) : Bool :=
   (match x.lo with | none => true | some a => decide (a ≤ i)) &&
   (match x.hi with | none => true | some b => decide (b ≥ i))
+
+/-- `ContainsPositive` -/
+def IR.containsPositive (x : IR) : Bool :=
+  match x.hi with
+  | none => true
+  | some b =>
+    if b ≤ 0 then false else
+    match x.lo with
+    | none => true
+    | some a => decide (a ≤ b)
+
+/-- `ContainsIntRange` -/
+def IR.containsIntRange (x y : IR) : Bool :=
+  if y.empty then true
+  else if (match x.lo with
+      | some a => (match y.lo with | none => true | some c => decide (a > c))
+      | none => false) then false
+  else if (match x.hi with
+      | some b => (match y.hi with | none => true | some d => decide (b < d))
+      | none => false) then false
+  else true
+
+/-- `Eq` -/
+def IR.eq (x y : IR) : Bool :=
+  if x.empty || y.empty then x.empty == y.empty
+  else
+    (match x.lo, y.lo with
+      | some a, some c => decide (a = c)
+      | none, none => true
+      | _, _ => false) &&
+    (match x.hi, y.hi with
+      | some b, some d => decide (b = d)
+      | none, none => true
+      | _, _ => false)
+
+/-- `String` -/
+def IR.str (x : IR) : String :=
+  if x.empty then "[empty]"
+  else
+    (match x.lo with | none => "[-∞ ..= " | some a => "[" ++ toString a ++ " ..= ") ++
+    (match x.hi with | none => "+∞]" | some b => toString b ++ "]")
 
 /-- `justZero` -/
 def IR.justZero (x : IR) : Bool :=
@@ -259,7 +303,17 @@ theorem natAbs_lt_two_pow_bitLen (i : Int) : i.natAbs < 2 ^ bitLen i := by
     · exact Int.ediv_eq_zero_of_lt (by omega) (by omega)
   · rfl
 
+/-- `bigIntQuo` : truncated quotient (`big.Int.Quo`) -/
 def bigQuo (i j : Int) : Int := Int.tdiv i j
+
+/-- `bigIntQuo` as executed: `big.Int.Quo` panics on a zero divisor (`none`). -/
+def bigQuoP (i j : Int) : Option Int := if j = 0 then none else some (bigQuo i j)
+
+/-- `bigIntMul` -/
+def bigMul (i j : Int) : Int := i * j
+
+/-- `bigIntNewSet` / `bigIntNewNot` on a possibly nil pointer -/
+def bigNewSet (i : Option Int) : Option Int := i
 
 /-! The four sign-definite blocks of `mulLsh` (inline in the Go code):
 `x` negative/positive times `y` negative/positive. -/
@@ -440,8 +494,19 @@ def bitFillRight (i : Int) : Int := if i ≤ 0 then i else (2 : Int) ^ (bitLen i
 /-- `bitFillRight` with the `panic("pre-condition failure")` on a negative argument (`none`). -/
 def bitFillRightP (i : Int) : Option Int := if i < 0 then none else some (bitFillRight i)
 
-/-- `bitMask(n0, n1)` = 2^max(n0,n1) - 1 -/
-def bitMask (n0 n1 : Nat) : Int := (2 : Int) ^ (max n0 n1) - 1
+/-- `bitMask(n0, n1)`: `smallBitMasks[n]` when `n = max(n0,n1)` is inside the table (the table
+is regenerated from the code, `Gen/C06_Tables.lean`), otherwise `(1 << n) - 1`.
+`Proof/IntervalTables.lean` proves `bitMask n0 n1 = 2^max(n0,n1) - 1` from the obligation that
+table entry `n` is `2^n - 1`.  (The `n > 1<<30` size panic is out of scope.) -/
+def bitMask (n0 n1 : Nat) : Int :=
+  let n := if n0 < n1 then n1 else n0
+  match Gen.C06.smallBitMasks[n]? with
+  | some m => m
+  | none => (2 : Int) ^ n - 1
+
+/-- does `bitMask` return a pointer into the package-level table? (identity, for the tie) -/
+def bitMaskShared (n0 n1 : Nat) : Bool :=
+  (Gen.C06.smallBitMasks[if n0 < n1 then n1 else n0]?).isSome
 
 /-- `andMax` (receiver x = [xlo, xhi], argument y = [ylo, yhi]); all finite.
 Pure version (what is computed when no `bitFillRight` panics). -/
@@ -563,6 +628,9 @@ def andOneNegOneNonNeg (neg non : IR) : Option IR :=
           let biased : IR := ⟨some (iand mask nlo), some (iand mask nhi)⟩
           andBothNonNeg biased non)
       | _, _ => none
+
+/-- `bigIntNewNot` on a possibly nil pointer -/
+def bigNewNot (i : Option Int) : Option Int := i.map inot
 
 /-- the `IntRange{bigIntNewNot(r[1]), bigIntNewNot(r[0])}` idiom -/
 def IR.notSwap (r : IR) : IR := ⟨r.hi.map inot, r.lo.map inot⟩
